@@ -524,3 +524,54 @@ func init() {
 		return runDriver(cc, modulePath+"/inprocgrpc", fmt.Sprintf(inprocInvokeDriver, scenario), res)
 	}
 }
+
+const inprocClientStreamDriver = `package inprocgrpc
+
+import (
+	"context"
+	"testing"
+
+	"google.golang.org/grpc"
+	"google.golang.org/grpc/codes"
+	"google.golang.org/grpc/status"
+	"google.golang.org/protobuf/types/known/emptypb"
+)
+
+// A client-streaming (single response) method whose handler sends its response and
+// then FAILS: the caller must see the failure, not success.
+func TestZZGovcReplay(t *testing.T) {
+	ch := &Channel{}
+	ch.RegisterService(&grpc.ServiceDesc{
+		ServiceName: "svc",
+		HandlerType: (*interface{})(nil),
+		Streams: []grpc.StreamDesc{{StreamName: "CS", ClientStreams: true, Handler: func(srv interface{}, ss grpc.ServerStream) error {
+			if err := ss.SendMsg(&emptypb.Empty{}); err != nil {
+				return err
+			}
+			return status.Error(codes.DataLoss, "lost after the response was sent")
+		}}},
+	}, struct{}{})
+	cs, err := ch.NewStream(context.Background(), &grpc.StreamDesc{StreamName: "CS", ClientStreams: true}, "/svc/CS")
+	if err != nil {
+		t.Fatalf("NewStream: %v", err)
+	}
+	cs.CloseSend()
+	var resp emptypb.Empty
+	err = cs.RecvMsg(&resp)
+	if status.Code(err) != codes.DataLoss {
+		t.Fatalf("GOVC-REPLAY: VIOLATED handler sent one response and then returned DataLoss; the caller's RecvMsg returned %v (code %v)", err, status.Code(err))
+	}
+}
+`
+
+func init() {
+	replayDrivers["inprocgrpc.(*inProcessClientStream).ensureNoMoreLocked"] = func(cc *checkCtx, rec *obRecord, f *Failure) map[string]interface{} {
+		res := map[string]interface{}{"attempted": false}
+		if !strings.Contains(rec.o.Name, "a_failure_after_the_message_takes_precedence") {
+			res["reason"] = "no replay scenario for this obligation"
+			return res
+		}
+		res["inputs"] = map[string]interface{}{"scenario": "client-streaming handler: SendMsg(response) then return status DataLoss"}
+		return runDriver(cc, modulePath+"/inprocgrpc", inprocClientStreamDriver, res)
+	}
+}
